@@ -29,6 +29,7 @@ def check(F, rep, tier):
     san.integer_sanitiser(F, rep, "R16.4")
     san.predicates_in_closures(F, rep, "R16.5", "Sanitizer::remove_leading_zeros_from_segment", "is_ascii_digit", 1)
     san.predicates_in_closures(F, rep, "R16.4", "Sanitizer::sanitize_to_integer", "is_ascii_digit", 1)
+    san.zero_strip_result(F, rep, "R16.5")
     return core.finish(rep, explanation=EXPL, assumptions=ASSUME, trusted=TRUST)
 
 EXPL = ("Structural clauses of the sanitiser contract decided on the MIR of utils::sanitize: (R16.1) every character appended to the result is dominated by an ASCII-alphanumeric predicate on that same character, "
